@@ -174,11 +174,16 @@ def NewUserCode (cs : List Char) (amount dash : Nat) (indices : List Nat) : Opti
 def NewDeviceCode (bytes : List UInt8) : String := String.ofList (B64.encode bytes)
 
 /-- `ClientIDFromRequest` for requests without a client assertion (pkg/op/client.go): Basic auth authenticates
-    through AuthorizeClientIDSecret, otherwise the bare form client_id is taken, unauthenticated -/
+    through AuthorizeClientIDSecret - and `checkAuthMethodPost` refuses a client registered for client_secret_post while that
+    method is disabled -, otherwise the bare form client_id is taken, unauthenticated -/
 def ClientIDFromRequest (_now : Int) (r : DevHttpRequest) (p : DevProvider) : Go.R (String × Bool) :=
   if r.authKind == "basic" then
     match p.p.store.AuthorizeClientIDSecret r.clientID r.clientSecret with
-    | .ok _ => .ok (r.clientID, true)
+    | .ok _ =>
+      if p.p.postSupported then .ok (r.clientID, true) else
+      match p.p.store.GetClientByClientID r.clientID with
+      | .error _ => .error "ErrInvalidClient"
+      | .ok c => if c.auth == Const.AuthMethodPost then .error "ErrInvalidClient" else .ok (r.clientID, true)
     | .error _ => .error "ErrUnauthorizedClient"
   else if r.authKind == "none" || r.clientID == "" then .error "ErrInvalidClient"
   else .ok (r.clientID, false)
